@@ -1,6 +1,7 @@
 import PgVerif.Proofs.LRSound
 import PgVerif.Proofs.LineCol
 import PgVerif.Spec.Viable
+import PgVerif.Proofs.Viable
 /-!
 # C10 — rejections are SyntaxErrors at the first offending token
 
@@ -11,8 +12,11 @@ are token edges of the input chained from position 0 that derive the stack's
 symbols (`C10_lr_error_position`); reductions never move the position.
 `C10_linecol_inverse`: the reported (line, column) determines the position.
 That the position is never *early* (the shifted prefix plus the offending token
-is not viable) needs lookahead completeness of the table and is decided against
-the executable viable-prefix spec (`Spec/Viable.lean`) on the explored scope.
+is not viable) needs lookahead completeness of the table and is decided, on the
+explored scope, against the viable-prefix oracle `viableEnds` — which is itself
+proved sound and complete for every grammar and input once its charts saturate
+(`C10_viable_ends_correct`): it lists exactly the raw positions that are 0 or end a
+token path beginning a sentential form of the start symbol (`PrefixSeq`).
 -/
 namespace Pg
 
@@ -82,6 +86,13 @@ theorem C10_lr_error_position (hw : T.wf g = true) (cf : LRCfg) (fuel p : Nat)
     ∃ (st : List (Nat × Tree)) (pos : Nat), StackD g inp T st pos ∧ p = inp.skip pos := by
   obtain ⟨c', hinv, hp⟩ := run_syntaxError hw cf fuel Config.init (Inv.init _) p h
   exact ⟨c'.stack, c'.pos, hinv.st, hp⟩
+
+/-- The viable-prefix oracle is correct: sound, and complete once saturated, for every
+grammar (ambiguous, nullable, cyclic) and input. -/
+theorem C10_viable_ends_correct (hin : InputOK inp) (hm : InputMono inp) (fuel : Nat) (l : List Nat)
+    (h : viableEnds g inp fuel = some l) (j : Nat) :
+    j ∈ l ↔ j ≤ inp.len ∧ (j = 0 ∨ PrefixSeq g inp [.nt g.start] 0 j) :=
+  viableEnds_correct hin hm fuel l h j
 
 /-- The reported line and column determine the position (string inputs). -/
 theorem C10_linecol_inverse (text : List Nat) (pos : Nat) (h : pos ≤ text.length) :
